@@ -203,11 +203,18 @@ class TriggerHandler:
             # noinspection PyUnresolvedReferences,PyProtectedMember
             for frame in sys._current_frames().values():
                 while frame is not None:
-                    if frame.f_trace is None:
+                    current = frame.f_trace
+                    if current is None or self.__is_of_a_stopped_agent(current):
                         frame.f_trace = self.trace_call
                     frame = frame.f_back
         except BaseException:
             logging.exception("Cannot trace the calls in progress")
+
+    def __is_of_a_stopped_agent(self, function) -> bool:
+        # the function of an agent that has been shut down answers None to every event of the frame, and python keeps it
+        # there: a function still running when the agent was replaced (a main loop) would never reach us
+        other = getattr(function, '__self__', None)
+        return isinstance(other, TriggerHandler) and other is not self and other.__shutdown
 
     def trace_call(self, frame: FrameType, event: str, arg):
         """
